@@ -150,7 +150,7 @@ func checkStep(c *run.Ctx, cl *scn.Cluster, t uint32, cands []scn.Cand, reopen b
 	for i, e := range errs {
 		if e != nil {
 			rejected = true
-			viol("honest-block-rejected", fmt.Sprintf("node %d rejects a block produced by the honest miner path at height %d: %v", i, blk.Height(), e))
+			viol("honest-block-rejected:"+e.Error(), fmt.Sprintf("node %d rejects a block produced by the honest miner path at height %d: %v", i, blk.Height(), e))
 			break
 		}
 	}
